@@ -93,7 +93,7 @@ template<> struct IT<Tok>
    X(RemoveItemAt) X(RemoveItemAtRet) X(RemoveItemAtDef) X(RemoveFirst) X(RemoveLast) X(RemoveAll) X(RemoveAllOwn) X(RemoveDup) X(RemoveSortedDup) \
    X(GetItemAt) X(GetItemPtr) X(GetWithDefault) X(GetWithDefaultV) X(HeadWithDefault) X(TailWithDefault) \
    X(ReplaceItemAt) X(ReplaceItemAtDefault) X(ReplaceAll) \
-   X(Clear) X(FastClear) X(EnsureSize) X(EnsureSizeSet) X(EnsureSizeX) X(EnsureCanAdd) X(ShrinkToFit) X(Normalize) \
+   X(Clear) X(FastClear) X(EnsureSize) X(EnsureSizeSet) X(EnsureSizeX) X(EnsureSizeSetX) X(EnsureCanAdd) X(ShrinkToFit) X(Normalize) \
    X(IndexOf) X(LastIndexOf) X(Contains) X(StartsWith) X(EndsWith) X(StartsWithQ) X(EndsWithQ) X(Cmp) X(CmpSelf) X(Iter) \
    X(Swap) X(Reverse) X(Sort) \
    X(SwapContents) X(CopyFrom) X(Assign) X(CopyCtor) X(AssignSelf) X(CopyFromSelf) X(MoveAssign) X(Plunder) X(MoveCtor) X(MoveAway) X(Adopt) X(Release)
@@ -126,7 +126,7 @@ static int GroupOf(int op)
       case OP_InsertItemAt: case OP_InsertItemAtDefault: case OP_InsertItemAtOwn: case OP_InsertSorted: return G_INSERTAT;
       case OP_Sort: case OP_RemoveDup: return G_SORT;
       case OP_Reverse: return G_REVERSE;
-      case OP_EnsureSizeSet: case OP_RemoveHeadMulti: case OP_RemoveTailMulti: return G_SETSIZE;
+      case OP_EnsureSizeSet: case OP_EnsureSizeSetX: case OP_RemoveHeadMulti: case OP_RemoveTailMulti: return G_SETSIZE;
       case OP_SwapContents: case OP_CopyFrom: case OP_Assign: case OP_CopyCtor: case OP_MoveAssign: case OP_Plunder: case OP_MoveCtor: case OP_MoveAway: return G_WHOLE;
       default: return G_OTHER;
    }
@@ -138,8 +138,7 @@ struct Obs
    std::string st; int r; IV rs, o, q;     // observed status, integer result, iterator output, other queue's contents, contents
    std::vector<std::string> bad;           // the Queue contradicts itself / keeps a removed owning item / is not normalized after Normalize()
    int staleRepaired;                      // known finding "QswapStale": this many slots of the inline buffer outside the window held copies left behind; they have been reset
-   int reallocGarbage;                     // known finding "F16realloc": EnsureSize(n, true) that had to reallocate added this many non-default items (trivially copyable type); they have been reset
-   Obs() : r(0), staleRepaired(0), reallocGarbage(0) {}
+   Obs() : r(0), staleRepaired(0) {}
 };
 
 static const char * S(const status_t & s) {return s.IsOK() ? "ok" : ((s == B_DATA_NOT_FOUND) ? "notfound" : ((s == B_BAD_ARGUMENT) ? "badarg" : "error"));}
@@ -379,15 +378,9 @@ template<class T> struct Subject
          case OP_Clear:         q->Clear(c.a != 0); break;
          case OP_FastClear:     if (I::OWNING) return false; q->FastClear(); break;
          case OP_EnsureSize:    ob.st = S(q->EnsureSize(U(c.a))); break;
-         case OP_EnsureSizeSet: {
-            const uint32 sizeBefore = q->GetNumItems();
-            ob.st = S(q->EnsureSize(U(c.a), true));
-            // known finding F16realloc (trivially copyable items): when EnsureSize(n, true) has to reallocate, the items it adds are whatever the new array
-            // happens to contain.  Exactly those items are looked at here, counted, and reset to the default item so that everything else is judged normally.
-            if ((!I::OWNING)&&(U(c.a) > before.cap)&&(q->GetNumItems() == U(c.a)))
-               for (uint32 i=sizeBefore; i<q->GetNumItems(); i++) if (!((*q)[i] == T())) {ob.reallocGarbage++; (*q)[i] = T();}
-         } break;
+         case OP_EnsureSizeSet: ob.st = S(q->EnsureSize(U(c.a), true)); break;
          case OP_EnsureSizeX:   ob.st = S(q->EnsureSize(U(c.a), false, U(c.b), c.c != 0)); break;
+         case OP_EnsureSizeSetX: ob.st = S(q->EnsureSize(U(c.a), true, U(c.b), c.c != 0)); break;
          case OP_EnsureCanAdd:  ob.st = S(q->EnsureCanAdd(U(c.a))); break;
          case OP_ShrinkToFit:   ob.st = S(q->ShrinkToFit(U(c.a))); break;
          case OP_Normalize: {
@@ -510,7 +503,7 @@ static mj::Value ObsJson(const Obs & o) {mj::Value v = mj::Value::Obj(); v.set("
 // ---------------------------------------------------------------------------------------------------------------------------
 // spec -> code
 
-struct ReplayTotals {long runs, followed, violated, known, cutShort, steps, reallocGarbage; ReplayTotals() : runs(0), followed(0), violated(0), known(0), cutShort(0), steps(0), reallocGarbage(0) {}};
+struct ReplayTotals {long runs, followed, violated, known, cutShort, steps; ReplayTotals() : runs(0), followed(0), violated(0), known(0), cutShort(0), steps(0) {}};
 
 template<class T> static void ReplayOne(const mj::Value & beh, int startConfig, FILE * out, ReplayTotals & tot, Coverage & cov)
 {
@@ -526,10 +519,6 @@ template<class T> static void ReplayOne(const mj::Value & beh, int startConfig, 
       if (ob.staleRepaired) {
          if (tot.known == 0) {mj::Value rec = mj::Value::Obj(); mj::Value ka = mj::Value::Arr(); ka.push(mj::Value::Str(std::string("Queue<") + IT<T>::Name() + "> " + OPNAME[c.op] + ": slots of the inline buffer outside the window held items left behind by an earlier SwapContents/Plunder/move")); rec.set("known", ka).set("behaviour", beh["id"]).set("step", mj::Value::Int((int64_t) k)).set("call", CallJson(c)); fprintf(out, "%s\n", mj::ToString(rec).c_str());}
          tot.known++;
-      }
-      if (ob.reallocGarbage) {
-         if (tot.reallocGarbage == 0) {mj::Value rec = mj::Value::Obj(); rec.set("known_realloc", mj::Value::Str(std::string("Queue<") + IT<T>::Name() + "> EnsureSize(n, true) with reallocation added non-default items")).set("behaviour", beh["id"]).set("step", mj::Value::Int((int64_t) k)).set("call", CallJson(c)); fprintf(out, "%s\n", mj::ToString(rec).c_str());}
-         tot.reallocGarbage++;
       }
       std::vector<std::string> diffs = ob.bad; char b[400];
       const std::string wantSt = s["st"].str();
@@ -570,15 +559,15 @@ static int Replay(const char * inFile, const char * outFile, const char * onlyTy
          if ((!onlyType)||(!strcmp(onlyType, "Tok")))    ReplayOne<Tok>(beh, sc, out, tot[2], cov[2]);
       }
    }
-   const char * names[] = {"int", "String", "Tok"}; Coverage all; mj::Value sum = mj::Value::Obj(); long runs = 0, followed = 0, violated = 0, known = 0, steps = 0, rg = 0, cutShort = 0;
+   const char * names[] = {"int", "String", "Tok"}; Coverage all; mj::Value sum = mj::Value::Obj(); long runs = 0, followed = 0, violated = 0, known = 0, steps = 0, cutShort = 0;
    mj::Value per = mj::Value::Obj();
    for (int i=0; i<3; i++) {
-      all.Merge(cov[i]); runs += tot[i].runs; followed += tot[i].followed; violated += tot[i].violated; known += tot[i].known; steps += tot[i].steps; rg += tot[i].reallocGarbage; cutShort += tot[i].cutShort;
+      all.Merge(cov[i]); runs += tot[i].runs; followed += tot[i].followed; violated += tot[i].violated; known += tot[i].known; steps += tot[i].steps; cutShort += tot[i].cutShort;
       mj::Value t = mj::Value::Obj(); t.set("runs", mj::Value::Int(tot[i].runs)).set("followed", mj::Value::Int(tot[i].followed)).set("violated", mj::Value::Int(tot[i].violated)).set("known", mj::Value::Int(tot[i].known)).set("cut_short", mj::Value::Int(tot[i].cutShort)).set("steps", mj::Value::Int(tot[i].steps));
       cov[i].Report(t); t.o.pop_back();   // the per-class table only once, for all types together
       per.set(names[i], t);
    }
-   sum.set("summary", mj::Value::Bool(true)).set("behaviours", mj::Value::Int(nb)).set("runs", mj::Value::Int(runs)).set("followed", mj::Value::Int(followed)).set("violated", mj::Value::Int(violated)).set("known", mj::Value::Int(known)).set("cut_short", mj::Value::Int(cutShort)).set("known_realloc", mj::Value::Int(rg)).set("steps", mj::Value::Int(steps));
+   sum.set("summary", mj::Value::Bool(true)).set("behaviours", mj::Value::Int(nb)).set("runs", mj::Value::Int(runs)).set("followed", mj::Value::Int(followed)).set("violated", mj::Value::Int(violated)).set("known", mj::Value::Int(known)).set("cut_short", mj::Value::Int(cutShort)).set("steps", mj::Value::Int(steps));
    all.Report(sum); sum.set("per_type", per);
    fprintf(out, "%s\n", mj::ToString(sum).c_str()); fclose(out); fclose(in);
    return 0;
@@ -590,10 +579,10 @@ static int Replay(const char * inFile, const char * outFile, const char * onlyTy
 template<class T> struct RandomDriver
 {
    typedef Subject<T> Sub;
-   Rng rng; FILE * trace; FILE * out; Coverage cov; long lines, runsDone, violated, known, reallocGarbage, curRun, curStep; Sub * sub; IV cur; bool stop;
+   Rng rng; FILE * trace; FILE * out; Coverage cov; long lines, runsDone, violated, known, curRun, curStep; Sub * sub; IV cur; bool stop;
    static const int MAXV = 5;
 
-   RandomDriver(uint64 seed, FILE * t, FILE * o) : rng(seed), trace(t), out(o), lines(0), runsDone(0), violated(0), known(0), reallocGarbage(0), curRun(0), curStep(0), sub(NULL), stop(false) {}
+   RandomDriver(uint64 seed, FILE * t, FILE * o) : rng(seed), trace(t), out(o), lines(0), runsDone(0), violated(0), known(0), curRun(0), curStep(0), sub(NULL), stop(false) {}
 
    int V() {return 1+(int) rng.Below(MAXV);}
    int V0() {return rng.Chance(15) ? 0 : V();}
@@ -604,14 +593,6 @@ template<class T> struct RandomDriver
    int ValidIdx() {return (int) rng.Below((uint32) Size());}
    int Lim() {return rng.Chance(40) ? NOLIMIT : (int) rng.Below((uint32) Size()+3);}
    bool IsSortedNow() const {for (size_t i=1; i<cur.size(); i++) if (cur[i-1] > cur[i]) return false; return true;}
-
-   // q.AddHeadMulti(q, st, num) (also reached through q.InsertItemsAt(0, q, st, num)): taking two or more of the Queue's own items without a
-   // reallocation is the known finding "addheadself" and is kept out of the random calls: the number of items is cut to one
-   int SelfHeadNum(int st, int num)
-   {
-      const int avail = (st < Size()) ? (Size()-st) : 0; const int taken = (num < avail) ? num : avail; const RingPos p = Pos();
-      return ((taken >= 2)&&((uint32) taken <= p.cap-p.size)) ? 1 : num;
-   }
 
    // makes the call, logs it, checks what can be checked without the model
    void Do(int op, int a = 0, int b = 0, int c = 0, int v = 0, const IV & src = IV())
@@ -625,10 +606,6 @@ template<class T> struct RandomDriver
       if (ob.staleRepaired) {
          if (known == 0) {mj::Value rec = mj::Value::Obj(); mj::Value ka = mj::Value::Arr(); ka.push(mj::Value::Str(std::string("Queue<") + IT<T>::Name() + "> " + OPNAME[op] + ": slots of the inline buffer outside the window held items left behind by an earlier SwapContents/Plunder/move")); rec.set("known", ka).set("run", mj::Value::Int(curRun)).set("call", CallJson(cl)); fprintf(out, "%s\n", mj::ToString(rec).c_str());}
          known++;
-      }
-      if (ob.reallocGarbage) {
-         if (reallocGarbage == 0) {mj::Value rec = mj::Value::Obj(); rec.set("known_realloc", mj::Value::Str(std::string("Queue<") + IT<T>::Name() + "> EnsureSize(n, true) with reallocation added non-default items")).set("run", mj::Value::Int(curRun)).set("call", CallJson(cl)); fprintf(out, "%s\n", mj::ToString(rec).c_str());}
-         reallocGarbage++;
       }
       std::string ln = "{\"op\":\""; ln += OPNAME[op]; char nb[96]; snprintf(nb, sizeof(nb), "\",\"a\":%d,\"b\":%d,\"c\":%d,\"v\":%d,\"src\":", a, b, c, v); ln += nb; AppendIV(ln, src);
       ln += ",\"st\":\""; ln += ob.st; snprintf(nb, sizeof(nb), "\",\"r\":%d,\"rs\":", ob.r); ln += nb; AppendIV(ln, ob.rs); ln += ",\"o\":"; AppendIV(ln, ob.o); ln += ",\"q\":"; AppendIV(ln, ob.q);
@@ -675,10 +652,10 @@ template<class T> struct RandomDriver
          case 2: Do(OP_AddTailMultiArr, 0, 0, 0, 0, src); break;
          case 3: Do(OP_AddHeadMultiArr, 0, 0, 0, 0, src); break;
          case 4: Do(OP_AddTailMultiSelf, rng.Chance(50) ? 0 : Idx(), Lim()); break;
-         case 5: {const int st = rng.Chance(50) ? 0 : Idx(); Do(OP_AddHeadMultiSelf, st, SelfHeadNum(st, Lim()));} break;
+         case 5: Do(OP_AddHeadMultiSelf, rng.Chance(50) ? 0 : Idx(), Lim()); break;
          case 6: case 7: Do(OP_InsertItemsAt, Idx(), rng.Chance(50) ? 0 : (int) rng.Below(n+2), rng.Chance(50) ? NOLIMIT : (int) rng.Below(n+2), 0, src); break;
          case 8: Do(OP_InsertItemsAtArr, Idx(), 0, 0, 0, src); break;
-         case 9: {const int at = Idx(), st = rng.Chance(50) ? 0 : Idx(); const int num = Lim(); Do(OP_InsertItemsAtSelf, at, st, ((at == 0)||(Size() == 0)) ? SelfHeadNum(st, num) : num);} break;
+         case 9: Do(OP_InsertItemsAtSelf, Idx(), rng.Chance(50) ? 0 : Idx(), Lim()); break;
          case 10: Do(OP_InsertItemsAt, rng.Chance(50) ? Size() : (int) rng.Below((uint32) Size()+1), 0, NOLIMIT, 0, src); break;
          default: {
             // an array inside the Queue's own storage: a run of items that is contiguous in memory
@@ -725,13 +702,7 @@ template<class T> struct RandomDriver
          case 8: if (rng.Chance(30)) Do(OP_ReplaceAll, 0, 0, 0, V()); break;
          case 9: Do(OP_EnsureSize, (int) rng.Below(14)); break;
          case 10: Do(OP_EnsureSizeSet, (int) rng.Below((uint32) Size()+4)); break;
-         case 11: {
-            // EnsureSize(n, false, extra, allowShrink); allowShrink with fewer slots than items is the known finding "shrinkoverflow" and is kept out
-            const int extra = (int) rng.Below(3), shrink = (int) rng.Below(2); int n = (int) rng.Below(12);
-            if ((shrink)&&(n+extra < Size())) n = Size()-extra+(int) rng.Below(3);
-            if (n < 0) n = 0;
-            Do(OP_EnsureSizeX, n, extra, shrink);
-         } break;
+         case 11: Do(rng.Chance(35) ? OP_EnsureSizeSetX : OP_EnsureSizeX, (int) rng.Below(12), (int) rng.Below(3), (int) rng.Below(2)); break;    // EnsureSize(n, set, extra, allowShrink), n below the item count included
          case 12: Do(OP_EnsureCanAdd, (int) rng.Below(6)); break;
          case 13: Do(OP_ShrinkToFit, (int) rng.Below(4)); break;
          case 14: case 15: Do(OP_Normalize); break;
@@ -789,8 +760,8 @@ template<class T> struct RandomDriver
          case 18: Do(rng.Chance(50) ? OP_CopyCtor : OP_MoveCtor); break;
          case 19: Do(OP_RemoveHeadMulti, 1+(int) rng.Below(3)); break;
          case 20: Do(OP_RemoveTailMulti, 1+(int) rng.Below(3)); break;
-         case 21: Do(OP_ShrinkToFit, (int) rng.Below(2)); break;
-         case 22: {const int at = Idx(); Do(OP_InsertItemsAtSelf, at, 0, ((at == 0)||(Size() == 0)) ? SelfHeadNum(0, n ? n : 1) : (n ? n : 1));} break;
+         case 21: if (rng.Chance(50)) Do(OP_ShrinkToFit, (int) rng.Below(2)); else Do(rng.Chance(50) ? OP_EnsureSizeX : OP_EnsureSizeSetX, (int) rng.Below((uint32) Size()+2), (int) rng.Below(2), 1); break;
+         case 22: Do(OP_InsertItemsAtSelf, rng.Chance(30) ? 0 : Idx(), 0, n ? n : 1); break;
          default: Do(OP_RemoveDup); break;
       }
    }
@@ -846,14 +817,14 @@ template<class T> static int Random(uint64 seed, long runs, long nops, const cha
    for (long r=0; r<runs; r++) d.Run(r, nops);
    mj::Value sum = mj::Value::Obj();
    sum.set("summary", mj::Value::Bool(true)).set("type", mj::Value::Str(IT<T>::Name())).set("seed", mj::Value::Int((int64_t) seed)).set("runs", mj::Value::Int(d.runsDone)).set("trace_lines", mj::Value::Int(d.lines))
-      .set("violated", mj::Value::Int(d.violated)).set("known", mj::Value::Int(d.known)).set("known_realloc", mj::Value::Int(d.reallocGarbage));
+      .set("violated", mj::Value::Int(d.violated)).set("known", mj::Value::Int(d.known));
    d.cov.Report(sum);
    fprintf(out, "%s\n", mj::ToString(sum).c_str()); fclose(out); fclose(tf);
    return 0;
 }
 
 // ---------------------------------------------------------------------------------------------------------------------------
-// directed cases of the known findings
+// directed cases of the known findings (open: swapstale; repaired in /repo and judged as ordinary cases: the other three)
 
 static int Directed(const char * name, const char * outFile)
 {
@@ -875,7 +846,7 @@ static int Directed(const char * name, const char * outFile)
    }
    else if (!strcmp(name, "shrinkoverflow")) {
       // Queue<int> [1..8] (8 slots); EnsureSize(5, false, 0, allowShrink = true): "makes sure there is enough space allocated for at least (numSlots) items";
-      // the ideal sequence is unchanged.  The code copies all 8 items into a new array of 5 slots (reported by ASan: this process dies here).
+      // the ideal sequence is unchanged, and the items must still fit.  (Before its repair the code copied all 8 items into a new array of 5 slots.)
       Queue<int> * q = new Queue<int>; for (int i=1; i<=8; i++) (void) q->AddTail(i);
       Call c; c.op = OP_EnsureSizeX; c.a = 5; c.b = 0; c.c = 1; NoteNow("directed", "int", 0, 8, c);
       const status_t r = q->EnsureSize(5, false, 0, true);
